@@ -565,7 +565,8 @@ impl WebSocketContext {
         };
 
         // If we're closing and there is nothing to send anymore, we should close the connection.
-        if self.role == Role::Server && !self.state.can_read() {
+        // A pending control frame that did not fit into the write buffer is still to be sent.
+        if self.role == Role::Server && !self.state.can_read() && self.additional_send.is_none() {
             // The underlying TCP connection, in most normal cases, SHOULD be closed
             // first by the server, so that it holds the TIME_WAIT state and not the
             // client (as this would prevent it from re-opening the connection for 2
